@@ -53,16 +53,16 @@ Proof. reflexivity. Qed.
 
 (* presets: a sector-radius row and a shell-count row, both buildable; a shell-count row in the radius branch and a
    row with fewer sizes than counts, both unbuildable *)
-Definition ex_cfg : pcfg := PCfg ["cnt"%string] "mix"%string 19 ["cnt"%string; "mix"%string] "mix"%string.
+Definition ex_cfg : pcfg := PCfg ["cnt"%string] "mix"%string 19 ["cnt"%string; "mix"%string] "mix"%string None.
 Definition ex_tabs : @ptables Z :=
   [("rad"%string, PTab [(1, PRow (RadF [2; 5]) [6; 8; 6])] None);
    ("cnt"%string, PTab [(1, PRow (RadI [2; 1]) [6; 7]); (2, PRow (RadI [1; 1; 1]) [6; 8])] None);
    ("mix"%string, PTab [(19, PRow (RadI [50]) [8]); (20, PRow (RadI [3]) [8])] (Some [3]))].
 Example ex_presets_ok :
-  preset_okb ZOps ex_ntab ex_cfg ex_tabs Lebedev "rad" 1 (PRow (RadF [2; 5]) [6; 8; 6]) = true /\
-  preset_okb ZOps ex_ntab ex_cfg ex_tabs Lebedev "cnt" 1 (PRow (RadI [2; 1]) [6; 7]) = true /\
-  preset_okb ZOps ex_ntab ex_cfg ex_tabs Lebedev "mix" 20 (PRow (RadI [3]) [8]) = true /\
-  bad_rows ZOps ex_ntab ex_cfg ex_tabs Lebedev = [("cnt"%string, 2); ("mix"%string, 19)] /\
+  preset_okb ZOps ex_dtab ex_ntab ex_cfg ex_tabs Lebedev "rad" 1 (PRow (RadF [2; 5]) [6; 8; 6]) = true /\
+  preset_okb ZOps ex_dtab ex_ntab ex_cfg ex_tabs Lebedev "cnt" 1 (PRow (RadI [2; 1]) [6; 7]) = true /\
+  preset_okb ZOps ex_dtab ex_ntab ex_cfg ex_tabs Lebedev "mix" 20 (PRow (RadI [3]) [8]) = true /\
+  bad_rows ZOps ex_dtab ex_ntab ex_cfg ex_tabs Lebedev = [("cnt"%string, 2); ("mix"%string, 19)] /\
   option_map (fun g => (ag_degs g, ag_idx g))
     (from_preset ZOps ex_dtab ex_ntab ex_ang ex_rot ex_cfg ex_tabs Lebedev 1 "cnt" ex_rg (0, 0, 0) 0)
     = Some ([3; 3; 5], [0; 6; 12; 20]).
